@@ -194,9 +194,9 @@ func (m *mon) runStable() {
 		a := m.newAcc()
 		defer a.flush()
 		where := sc.String()
-		class := sc.class()
+		class := m.rclass(sc.class())
 		m.c.LastCase("uvrand " + where)
-		d := distuv.AlphaStable{Alpha: sc.alpha, Beta: sc.beta, C: sc.c, Mu: sc.mu, Src: m.c.RNG("uvrand.stable", i)}
+		d := distuv.AlphaStable{Alpha: sc.alpha, Beta: sc.beta, C: sc.c, Mu: sc.mu, Src: m.src("uvrand.stable", i)}
 		xs := make([]float64, N)
 		msg, panicked := try(func() {
 			for j := range xs {
@@ -255,7 +255,9 @@ func (m *mon) runStable() {
 			for _, x := range xs {
 				s.add(x)
 			}
-			a.near("rand.mean", "distuv.AlphaStable.Rand|alpha=2|sample-mean-outside-8-sigma", where, s.s/n, d.Mean(), 8*math.Sqrt(2*sc.c*sc.c/n))
+			if !m.nilSrc {
+				a.near("rand.mean", "distuv.AlphaStable.Rand|alpha=2|sample-mean-outside-8-sigma", where, s.s/n, d.Mean(), 8*math.Sqrt(2*sc.c*sc.c/n))
+			}
 		}
 		if sc.alpha > 1 {
 			a.near("stable.moment", "distuv.AlphaStable.Mean|alpha>1|not-Mu", where, d.Mean(), sc.mu, 0)
